@@ -6,7 +6,7 @@
    wide_ok w lw llw: a strictly wider type used by a widening path has at least twice the width
    (LP64: int 32 -> long 64; LLP64: int/long 32 -> long long 64). *)
 From Coq Require Import ZArith Bool.
-From CyVerif Require Import Lib.CInt Model.M_CMath Proof.P_CMath Model.M_Overflow Proof.P_Overflow.
+From CyVerif Require Import Lib.CInt Model.M_CMath Proof.P_CMath Model.M_Overflow Proof.P_Overflow Proof.P_OverflowTd.
 Open Scope Z_scope.
 
 (* every base helper (add/sub/mul, signed/unsigned, portable branch as written or builtin branch by
@@ -180,6 +180,105 @@ Theorem C04_negative_operand_conversion_refuted :
     binop_node true OAdd w false 64 64 false false false a (wrap w false c) = Val v /\ v <> a + c.
 Proof. exact negative_operand_conversion_refuted. Qed.
 Print Assumptions C04_negative_operand_conversion_refuted.
+
+(* ---- typedef'd integer types (ctypedef aliases, libc.stdint, extern typedefs of inexact declared
+   size, Py_ssize_t / size_t / Py_hash_t / ptrdiff_t): the compiler instantiates Binop / LeftShift at
+   the typedef name and the if-chain on sizeof(TYPE) chooses the callee.  iw = width of int, w / s =
+   real width / signedness of TYPE, size_sane = the import-time SizeCheck. *)
+
+(* the callee chosen by the chain: the base helper of exactly the type's width and signedness, or the
+   shortcut for sizeof(TYPE) < sizeof(int) *)
+Theorem C04_typedef_callee : forall iw lw llw w s,
+  size_sane iw lw llw w = true ->
+  dispatch_choice CmpLt iw lw llw w s = if w <? iw then CNarrow else CBase w s.
+Proof. exact dispatch_choice_spec. Qed.
+Print Assumptions C04_typedef_callee.
+
+(* code as it is, any sane type at least as wide as int (every width 32/64 ..., both signednesses):
+   the wrapped exact result, and the bit is set iff the exact result is outside the type *)
+Theorem C04_typedef_dispatch_exact : forall builtin op iw lw llw w s cb ca swap a b,
+  size_sane iw lw llw w = true -> iw <= w -> 2 <= w -> wide_ok w lw llw ->
+  in_range w s a -> in_range w s b ->
+  binop_dispatch builtin op iw lw llw w s cb ca swap a b
+  = R (wrap w s (exact_op op a b)) (negb (in_rangeb w s (exact_op op a b))).
+Proof. exact dispatch_exact. Qed.
+Print Assumptions C04_typedef_dispatch_exact.
+
+(* the guard of the shortcut is tight: whatever guard lets a type of width w take the unchecked
+   shortcut, for every operator and signedness some operands of the type return a wrong value with
+   the bit clear.  Instances: a guard "sizeof(TYPE) <= sizeof(int)" at w = iw (c := CmpLe: int-sized typedefs,
+   P_OverflowTd.dispatch_le_guard_refuted), and the code as it is at every w < iw (next statement). *)
+Theorem C04_typedef_unchecked_arm_refuted : forall builtin op c iw lw llw w s,
+  3 <= w -> cmp_holds c w iw = true ->
+  exists a b v, in_range w s a /\ in_range w s b /\
+    binop_dispatch_v false c builtin op iw lw llw w s false false false a b = R v false
+    /\ v <> exact_op op a b.
+Proof. exact unchecked_arm_refuted. Qed.
+Print Assumptions C04_typedef_unchecked_arm_refuted.
+
+(* FINDING (extern typedef whose real type is narrower than int): full statement, false for the code
+   as it is:  forall w < iw ..., binop_dispatch ... = R (wrap w s exact) (negb (in_rangeb w s exact)) *)
+Theorem C04_typedef_narrow_refuted : forall builtin op iw lw llw w s, 3 <= w -> w < iw ->
+  exists a b v, in_range w s a /\ in_range w s b /\
+    binop_dispatch builtin op iw lw llw w s false false false a b = R v false
+    /\ v <> exact_op op a b.
+Proof. exact dispatch_narrow_asis_refuted. Qed.
+Print Assumptions C04_typedef_narrow_refuted.
+
+(* ... the repaired shortcut (int helper, then test that the result survives the cast to TYPE) makes
+   the dispatch exact for EVERY sane width (8/16/32/64 ...) and signedness *)
+Theorem C04_typedef_dispatch_repaired_exact : forall builtin op iw lw llw w s cb ca swap a b,
+  size_sane iw lw llw w = true -> 2 <= w -> wide_ok w lw llw -> wide_ok iw lw llw ->
+  in_range w s a -> in_range w s b ->
+  binop_dispatch_v true CmpLt builtin op iw lw llw w s cb ca swap a b
+  = R (wrap w s (exact_op op a b)) (negb (in_rangeb w s (exact_op op a b))).
+Proof. exact dispatch_fx_exact. Qed.
+Print Assumptions C04_typedef_dispatch_repaired_exact.
+
+(* the statement on a typedef'd result type, + - * : exact value iff it fits, OverflowError otherwise
+   (as it is: types at least as wide as int = the complement of the finding class; repaired: all) *)
+Theorem C04_typedef_node_exact : forall fx builtin op iw lw llw w s cb ca swap a b,
+  op <> OLshift -> size_sane iw lw llw w = true -> 2 <= w -> (fx = true \/ iw <= w) ->
+  wide_ok w lw llw -> wide_ok iw lw llw -> in_range w s a -> in_range w s b ->
+  typedef_node fx CmpLt builtin op iw lw llw w s cb ca swap a b
+  = if in_rangeb w s (exact_cop op a b) then Val (exact_cop op a b) else Ovf.
+Proof. exact typedef_node_exact. Qed.
+Print Assumptions C04_typedef_node_exact.
+
+(* '<<' on a typedef'd type of any width (incl. narrower than int, where the macros are evaluated in
+   int): a returned value is exact and fits; a result that does not fit or a negative count raises *)
+Theorem C04_typedef_lshift_sound_complete : forall fx c builtin iw lw llw w s cb ca swap a b,
+  8 <= w -> in_range w s a -> in_range w s b ->
+  (forall v, typedef_node fx c builtin OLshift iw lw llw w s cb ca swap a b = Val v ->
+     0 <= b /\ v = a * 2 ^ b /\ in_range w s v)
+  /\ (~ in_range w s (a * 2 ^ b) \/ b < 0 ->
+      typedef_node fx c builtin OLshift iw lw llw w s cb ca swap a b = Ovf).
+Proof. exact typedef_lshift_sound_complete. Qed.
+Print Assumptions C04_typedef_lshift_sound_complete.
+
+(* FINDING: the OverflowError of a checked operation inside a nogil section / nogil function is raised
+   without the GIL (crash).  Full statement (false for the code as it is, gil_fixed = false):
+     forall in_nogil o, nogil_node false in_nogil o = o. *)
+Theorem C04_nogil_raise_refuted :
+  exists a b, in_range 32 true a /\ in_range 32 true b /\ ~ in_range 32 true (a + b) /\
+    nogil_node false true (binop_node true OAdd 32 true 64 64 false false false a b) = Undef.
+Proof. exact nogil_node_refuted. Qed.
+Print Assumptions C04_nogil_raise_refuted.
+
+(* ... right wherever nothing is raised, and the repaired variant is context independent *)
+Theorem C04_nogil_partial_and_repaired : forall gil_fixed in_nogil o,
+  (o <> Ovf -> nogil_node gil_fixed in_nogil o = o) /\ nogil_node true in_nogil o = o.
+Proof. intros. split; [apply nogil_node_partial | apply nogil_node_fixed]. Qed.
+Print Assumptions C04_nogil_partial_and_repaired.
+
+Example C04_typedef_nonvacuous :
+  size_sane 32 64 64 32 = true /\ wide_ok 32 64 64 /\ in_range 32 true 2147483647
+  /\ typedef_node false CmpLt false OAdd 32 64 64 32 true false false false 2147483647 1 = Ovf
+  /\ typedef_node false CmpLe false OAdd 32 64 64 32 true false false false 2147483647 1 = Val (-2147483648)
+  /\ typedef_node false CmpLt false OMul 32 64 64 16 false false false false 65535 2 = Val 65534
+  /\ typedef_node true CmpLt false OMul 32 64 64 16 false false false false 65535 2 = Ovf
+  /\ typedef_node true CmpLt false OMul 32 64 64 16 false false false false 255 257 = Val 65535.
+Proof. unfold wide_ok, in_range. vm_compute. intuition congruence. Qed.
 
 (* non-vacuity: LP64 int operands meet the hypotheses; one fitting and one overflowing product, on
    the portable branch with the widening path *)
